@@ -40,17 +40,24 @@ def unhz(t):
 _built = {}
 
 
-def builds(ctx, sub):
-    if "r" not in _built:
+def builds(ctx, sub, opt="-O2"):
+    """C driver (ASan+UBSan, compiled from VERIF_REPO's header and sources on every run), model runner,
+    site table.  opt="-O0" gives the build used by the C15 sub-check: at -O2 gcc deletes loads whose
+    value is unused (e.g. a `*s` tested after `state == -1` is already known), which would hide a
+    source-level read past the terminator from ASan."""
+    if "common" not in _built:
         inc = os.path.join(vlib.VERIF, "harness", "parsenum_sites.inc")
         sl = gsites.sites()
         stale = not os.path.exists(inc) or open(inc).read() != gsites.render_inc(sl)
-        exe, err = vlib.build_c("drv_parsenum_asan", "drv_parsenum.c",
-                                ["util/humansize.c", "util/asprintf.c", "util/warnp.c"],
-                                extra_sources=["drv_parsenum_p%d.c" % k for k in range(gsites.NPARTS)], asan=True)
         mexe, merr = vlib.build_model("parsenum")
-        _built["r"] = (exe, err, mexe, merr, sl, stale)
-    exe, err, mexe, merr, sl, stale = _built["r"]
+        _built["common"] = (mexe, merr, sl, stale)
+    if opt not in _built:
+        _built[opt] = vlib.build_c("drv_parsenum_asan" + ("" if opt == "-O2" else "_" + opt.strip("-")),
+                                   "drv_parsenum.c", ["util/humansize.c", "util/asprintf.c", "util/warnp.c"],
+                                   extra_sources=["drv_parsenum_p%d.c" % k for k in range(gsites.NPARTS)],
+                                   cflags=[opt], asan=True)
+    mexe, merr, sl, stale = _built["common"]
+    exe, err = _built[opt]
     if stale:
         ctx.fail(sub, "tie", "", "harness/parsenum_sites.inc is not what tools/gen_parsenum_sites.py generates")
         return None
@@ -201,6 +208,8 @@ def proj(line):
 def describe(case):
     t = case.split()
     try:
+        if t[0] == "hs":
+            return "%s  [n = %d]" % (case, int(t[1], 16))
         raw = bytes.fromhex(t[-1]) if t[-1] != "-" else b""
         if t[0] == "pf":
             raw = bytes.fromhex(t[9]) if t[9] != "-" else b""
@@ -508,7 +517,7 @@ def check_humansize(ctx):
 def check_parsenum_safety(ctx):
     """C15: the number and size parsers on the malformed stream"""
     sub = "parsenum.safety"
-    b = builds(ctx, sub)
+    b = builds(ctx, sub, opt="-O0")
     if not b:
         return
     exe, mexe, sl = b
